@@ -6,7 +6,10 @@ the `runner` key of a props entry.
   2. harness/cmd/h_gen draws schemas (C10) or append-only evolution pairs (C04) from VERIF_SEED,
      validates them with the repository's idl parser and writes one temporary Go module per
      schema / pair (outside /repo and /verif) with a generated main.go driver
-  3. per module, in parallel: stefc generates the package(s), `go build` builds the driver
+  3. per module, in parallel: stefc generates the package(s) - a REFUSAL by stefc's schema
+     validation (repo 90dfff4, before any file is generated) puts the schema outside "every schema
+     the compiler accepts": it is counted (# stat refused-*), not a violation; any other stefc
+     failure is PROP-FAIL stefc-generation-failed -, `go build` builds the driver
      (a compile failure of generated code is a PROP-FAIL C10), the driver (harness/hgenlib) runs
      the histories and prints the harness protocol (op lines `sd decode ...` for the Lean
      specification decoder, PROP-FAIL lines, stats)
@@ -38,6 +41,33 @@ KNOWN_COMPILE_CLASSES = [
 ]
 
 
+# Refusals of stefc/generator/validate.go (repo commit 90dfff4): schemas the compiler does not
+# accept. C10 quantifies over "every schema the compiler accepts": a refusal with one of these
+# messages BEFORE anything was generated is counted, it is not a violation.
+REFUSALS = [
+    (re.compile(r"the dictionary of a struct must be named after the struct"), "struct-dict-name"),
+    (re.compile(r"dictionary \S+ is used with fields of different types"), "dict-shared-string-bytes"),
+    (re.compile(r"a dictionary modifier on an array element type is not supported"), "array-elem-dict"),
+    (re.compile(r"an optional field of a dictionary struct type is not supported"), "optional-dict-struct"),
+    (re.compile(r"a oneof alternative of a dictionary struct type is not supported"), "oneof-alt-dict-struct"),
+    (re.compile(r"dictionary struct \S+ is recursive, this is not supported"), "recursive-dict-struct"),
+    (re.compile(r"the name is a Go keyword"), "go-keyword-field"),
+    (re.compile(r"struct \S+ contains itself through non-optional fields"), "self-containment"),
+]
+GENERATING_FILE = re.compile(r"^Generating \S+\.\w+\s*$", re.M)     # "Generating modifiedfields.go"
+
+
+def refusal_class(output):
+    """class of a validation refusal, or None when stefc failed in any other way (template
+    execution, gofmt, file system ... or after the first generated file)."""
+    if GENERATING_FILE.search(output):
+        return None
+    for rx, cls in REFUSALS:
+        if rx.search(output):
+            return cls
+    return None
+
+
 def one_line(s):
     return " ".join(s.split())
 
@@ -65,7 +95,26 @@ def process(entry, mode, arg, stefc, env, tier_budget):
     for s in entry["schemas"]:
         rc, o, e = cl.run([stefc, "--lang=go", "--outdir=" + os.path.join(d, "gen"), os.path.join(d, s)], cwd=d, env=env, timeout=300)
         if rc != 0:
-            fail("stefc-generation-failed", "schema %s: stefc exit %d: %s ;; schema: %s" % (eid, rc, (o + e)[-600:], schema_txt))
+            cls = refusal_class(o + e)
+            if cls is None:
+                fail("stefc-generation-failed", "schema %s: stefc exit %d: %s ;; schema: %s" % (eid, rc, (o + e)[-600:], schema_txt))
+                return "\n".join(out) + "\n", None
+            # refused by the compiler: outside the quantifier of C10 (and of C04 for a pair)
+            msg = one_line((o + e).split("\n", 1)[-1])[-240:]
+            out.append("# stat refused-by-compiler 1")
+            out.append("# stat refused-%s 1" % cls)
+            if entry["kind"] == "hazard" or entry.get("expect"):
+                out.append("# stat hazards-refused-as-expected 1")
+                out.append("# note regression %s (was %s): refused by stefc [%s]: %s" % (eid, entry.get("expect"), cls, msg))
+                want = entry.get("refusal")
+                if want and cls not in want.split("|"):
+                    out.append("# note regression %s: refusal class %s, expected %s" % (eid, cls, want))
+            elif entry["kind"] == "c04":
+                out.append("# stat pairs-refused-by-compiler 1")
+            else:
+                out.append("# stat generated-schemas-refused 1")
+            if not entry.get("expect") and entry["kind"] != "hazard":
+                out.append("# note refused %s [%s]: %s ;; schema: %s" % (eid, cls, msg, schema_txt[:600]))
             return "\n".join(out) + "\n", None
     for root, _, files in os.walk(os.path.join(d, "gen")):
         for f in files:
@@ -83,7 +132,7 @@ def process(entry, mode, arg, stefc, env, tier_budget):
                 sig += ":" + cls
                 break
         if entry["kind"] == "hazard":
-            if entry["expect"].startswith("generated-code-does-not-compile"):
+            if entry["expect"].startswith("generated-code-does-not-compile") and sig == "generated-code-does-not-compile":
                 sig = entry["expect"]
             out.append("PROP-FAIL C10 %s [deliberate trigger %s: %s] first compiler error: %s ;; schema: %s" % (
                 sig, eid, entry["why"], err, schema_txt))
@@ -119,7 +168,7 @@ def process(entry, mode, arg, stefc, env, tier_budget):
             return "\n".join(out) + "\n", "driver of %s crashed (exit %d): %s" % (eid, p.returncode, err[-1500:])
     elif entry["kind"] == "hazard":
         out.append("# note hazard %s (%s) did not reproduce" % (eid, entry["expect"]))
-    if entry["kind"] == "c10" and entry.get("expect"):
+    if entry["kind"] == "c10" and entry.get("wire"):
         txt = wire_hazard(entry, txt, schema_txt)
     out.append(txt)
     return "\n".join(out) + "\n", None
@@ -178,7 +227,9 @@ def run(res, cfg, findings, args):
             return None
         mods = os.path.join(tmp, "mods")
         os.makedirs(mods)
-        rc, prep, e = cl.run([exe, "prepare", mode, str(n), mods], cwd=os.path.join(cl.VERIF, "harness"), env=env, timeout=600)
+        penv = dict(env)
+        penv["VERIF_STEFC"] = stefc      # h_gen draws until n schemas / pairs are ACCEPTED by this stefc
+        rc, prep, e = cl.run([exe, "prepare", mode, str(n), mods], cwd=os.path.join(cl.VERIF, "harness"), env=penv, timeout=900)
         if rc != 0:
             res.violation("tie-broken", "h_gen-prepare", (prep + e)[-3000:])
             return None
